@@ -231,6 +231,10 @@ def _worker(task: Dict[str, Any]) -> Dict[str, Any]:
                 continue
             counts["closed"] += 1
             v_closed = H.call_evaluate(formula, closed, grammar, max(20.0, task["watchdog"]))
+            for _ in range(2):
+                if v_closed != "U":
+                    break  # UNKNOWN on a closed tree is usually the 500 ms Z3 timeout of is_valid(): retry
+                v_closed = H.call_evaluate(formula, closed, grammar, max(20.0, task["watchdog"]))
             oracle = H.oracle_verdicts(formula, closed, grammar, features)
             expected = None
             if not oracle["error"] and len(oracle["verdicts"]) == 1 and (oracle["exact"] or (numeric and task["dc"])):
@@ -367,7 +371,12 @@ def run(rep, tier: str, seed: int) -> None:
     import isla.evaluator  # noqa: F401  (before the fork)
     import bounded.refeval  # noqa: F401
     t0 = time.time()
-    with multiprocessing.get_context("fork").Pool(WORKERS) as pool:
+    # prefixes are computed before the fork (inherited); one fresh child per task, so that no verdict or
+    # running time depends on the caches ISLa filled during earlier tasks of the same worker
+    for name in GRAMMARS:
+        for limit in sorted({cfg["prefixes"], cfg["numeric_prefixes"]}):
+            _prefix_data(name, tier, seed, limit)
+    with multiprocessing.get_context("fork").Pool(WORKERS, maxtasksperchild=1) as pool:
         results = list(pool.imap_unordered(_worker, tasks, chunksize=1))
     order = {(t["grammar"], t["tid"], t["variant"]): i for i, t in enumerate(tasks)}
     results.sort(key=lambda r: order[(r["task"]["grammar"], r["task"]["tid"], r["task"]["variant"])])
